@@ -99,10 +99,53 @@ func DecExpect(spec *gen.TypeSpec, doc []byte, entry string, prepop bool) string
 	if rt.Active(DecCaseFoldKey) && hasCaseVariantKey(spec, doc) {
 		return DecCaseFoldKey
 	}
-	if rt.Active(DecSliceReuse) && hasNullArrayElement(doc) && spec.Has(func(n *gen.TypeSpec) bool { return n.K == "slice" || n.K == "leaf:NSlice" }) {
-		return DecSliceReuse
+	if rt.Active(DecSliceReuse) {
+		anySlice := spec.Has(func(n *gen.TypeSpec) bool { return n.K == "slice" || n.K == "leaf:NSlice" })
+		// elements that were there before (pre-populated destination, or written by an earlier duplicate
+		// member) and that keep state when decoded into again: null leaves them alone, structs keep members
+		// the document does not name, maps merge, pointers keep their pointee, recording unmarshalers count
+		stateful := spec.Has(func(n *gen.TypeSpec) bool {
+			if n.K != "slice" || n.Elem == nil {
+				return false
+			}
+			e := n.Elem
+			return e.K == "struct" || e.K == "map" || e.K == "ptr" || e.K == "slice" || e.K == "array" || e.K == "iface" || strings.HasPrefix(e.K, "leaf:")
+		})
+		if anySlice && (hasNullArrayElement(doc) || (stateful && (prepop || hasDuplicateKey(doc)))) {
+			return DecSliceReuse
+		}
 	}
 	return ""
+}
+
+// hasDuplicateKey: some object of the document has two members with the same (raw) key text.
+func hasDuplicateKey(doc []byte) bool {
+	root, err := ref.Parse(doc)
+	if err != nil {
+		return false
+	}
+	var walk func(n *ref.Node) bool
+	walk = func(n *ref.Node) bool {
+		if n == nil {
+			return false
+		}
+		if n.Kind == 'o' {
+			seen := map[string]bool{}
+			for _, k := range n.Keys {
+				if seen[strings.ToLower(k)] {
+					return true
+				}
+				seen[strings.ToLower(k)] = true
+			}
+		}
+		for _, e := range n.Elems {
+			if walk(e) {
+				return true
+			}
+		}
+		return false
+	}
+	return walk(root)
 }
 
 // hasNullArrayElement: the document contains null as an element of an array.
